@@ -151,7 +151,7 @@ def run(check):
                   "type, enabled, stop_if, deploy, wait_for, closure timeout, workflow output, foreach items and parallelism), type-adapted so that Prepare accepts "
                   "them; (B) misbehaving plugins (undeclared output id, ill-typed data, nil data, step-fatal and server-fatal errors, dropped connection) at every "
                   "step of 4 shapes and protocol faults at the run-time deployment; oracle: the child process must not die by panic / fatal error (and must not "
-                  "hang); (C) results that appear only because the run is being terminated and reach steps that are being closed; non-trivial = a fault was injected and the workflow was accepted; distinct = (fault class, position)") % (len(FAULTS), len(POSITIONS))
+                  "hang); (C) results that appear only because the run is being terminated and reach steps that are being closed; (D) explicit output schemas that do not fit the workflow (missing root object, dangling reference, other types); non-trivial = a fault was injected and the workflow was accepted; distinct = (fault class, position)") % (len(FAULTS), len(POSITIONS))
     check.assumptions = ["workflow inputs are schema-valid", "a rejected workflow is not a violation but is counted (coverage lost)"]
     gs = []
     for (fclass, ftype, fexpr, ov) in FAULTS:
@@ -196,6 +196,32 @@ def run(check):
         scripts["h"]["exec"] = {"outcome": "hang", "on_cancel": on_cancel}
         gs.append({"program": prog, "scripts": scripts, "input": gen.base_input(rng), "shape": "late-result/%s/%s/%s" % (ending, on_cancel, "+".join(sorted(kinds))), "outcome": {},
                    "fault": ("result-produced-by-termination", "%s %s" % (on_cancel, "+".join(sorted(kinds))))})
+    # (D) explicit output schemas that do not fit the workflow: refused at preparation or an error of the run, never a crash
+    def obj(oid, props):
+        return {"id": oid, "properties": {k: {"type": t} for k, t in props.items()}}
+    STR = {"type_id": "string"}
+    bad_schemas = {
+        "root-object-missing": {"root": "Missing", "objects": {"Present": obj("Present", {"t": STR})}},
+        "no-objects": {"root": "R", "objects": {}},
+        "reference-to-missing-object": {"root": "R", "objects": {"R": obj("R", {"t": {"type_id": "ref", "id": "Nope"}})}},
+        "field-of-other-type": {"root": "R", "objects": {"R": obj("R", {"t": {"type_id": "integer"}})}},
+        "required-field-not-produced": {"root": "R", "objects": {"R": obj("R", {"t": STR, "more": STR})}},
+        "produced-field-not-declared": {"root": "R", "objects": {"R": obj("R", {"other": STR})}},
+        "list-where-string": {"root": "R", "objects": {"R": obj("R", {"t": {"type_id": "list", "items": STR}})}},
+        "self-referencing-object": {"root": "R", "objects": {"R": obj("R", {"t": STR, "again": {"type_id": "ref", "id": "R"}})}},
+        # a fitting schema whose reference is exercised by the produced data
+        "reference-used-by-the-data": {"root": "R", "objects": {"R": obj("R", {"t": {"type_id": "ref", "id": "Sub"}}), "Sub": obj("Sub", {"x": STR})}},
+    }
+    for name, sch in sorted(bad_schemas.items()):
+        for flag in (None, True):
+            a = gen.plugin_step("a", Expr(In("tag")))
+            entry = {"schema": sch}
+            if flag:
+                entry["error"] = True
+            data = {"t": {"x": gen.tagref("a")}} if name == "reference-used-by-the-data" else {"t": gen.tagref("a")}
+            prog = Program([a], {"success": data}, gen.BASE_INPUT, output_schema={"success": entry})
+            gs.append({"program": prog, "scripts": gen.make_scripts([a], {}), "input": gen.base_input(random.Random(1)), "shape": "explicit-output-schema/%s%s" % (name, "/error-flag" if flag else ""),
+                       "outcome": {}, "fault": ("explicit-output-schema", name)})
     items = []
     for i, g in enumerate(gs):
         prog = g["program"]
